@@ -172,3 +172,43 @@ package generic
 //@   ensures {C13} pure: gpure(params)
 //@   ensures {C13,C04} onlyexpired: forall k string :: old(has(gstore(params), k)) && !has(gstore(params), k) ==> old(sugardb.expired(gstore(params)[k], $now))
 //@   ensures {C20} otherdbs: forall d int :: d != dbof(params.Context) ==> $srv.store[d] == old($srv.store[d])
+
+// ---- INCR / DECR / INCRBY / DECRBY: integer counters stored as decimal strings; an absent key counts from 0.
+// gval0: the value a read of the key returns on entry (nil when the key is absent or expired).
+//@ spec gval0(params internal.HandlerFuncParams) any = old(glive(params, gkey(params)) ? gstore(params)[gkey(params)].Value : nil)
+//@ spec gnumok(v any) bool = v == nil || (isstr(v) && atoiok(asstr(v))) || isint(v) || isint64(v)
+//@ spec gnum(v any) int64 = v == nil ? 0 : (isstr(v) ? atoi(asstr(v)) : (isint(v) ? asint(v) : asint64(v)))
+
+//@ func handleIncr props C01,C12
+//@   requires henv(params)
+//@   assumes own-cmd: len(params.Command) >= 2 ==> disjointarr(params.Command, $srv.keysWithExpiry.keys[dbof(params.Context)])
+//@   ensures {C01} arity: len(params.Command) != 2 ==> result1 != nil
+//@   ensures {C01} notnumber: len(params.Command) == 2 && !gnumok(gval0(params)) ==> result1 != nil && gstore(params)[gkey(params)] == old(gstore(params)[gkey(params)])
+//@   ensures {C01} counted: result1 == nil ==> gnumok(gval0(params)) && has(gstore(params), gkey(params)) && isstr(gstore(params)[gkey(params)].Value) && asstr(gstore(params)[gkey(params)].Value) == itoa(gnum(gval0(params)) + 1) && bstr(result0) == ":" ++ (itoa(gnum(gval0(params)) + 1) ++ "\r\n")
+//@   ensures {C01,C20} otherkeys: forall k string :: k != gkey(params) && has(gstore(params), k) ==> old(has(gstore(params), k)) && gstore(params)[k].Value == old(gstore(params)[k].Value)
+
+//@ func handleDecr props C01,C12
+//@   requires henv(params)
+//@   assumes own-cmd: len(params.Command) >= 2 ==> disjointarr(params.Command, $srv.keysWithExpiry.keys[dbof(params.Context)])
+//@   ensures {C01} arity: len(params.Command) != 2 ==> result1 != nil
+//@   ensures {C01} notnumber: len(params.Command) == 2 && !gnumok(gval0(params)) ==> result1 != nil && gstore(params)[gkey(params)] == old(gstore(params)[gkey(params)])
+//@   ensures {C01} counted: result1 == nil ==> gnumok(gval0(params)) && has(gstore(params), gkey(params)) && isstr(gstore(params)[gkey(params)].Value) && asstr(gstore(params)[gkey(params)].Value) == itoa(gnum(gval0(params)) - 1) && bstr(result0) == ":" ++ (itoa(gnum(gval0(params)) - 1) ++ "\r\n")
+//@   ensures {C01,C20} otherkeys: forall k string :: k != gkey(params) && has(gstore(params), k) ==> old(has(gstore(params), k)) && gstore(params)[k].Value == old(gstore(params)[k].Value)
+
+//@ func handleIncrBy props C01,C12
+//@   requires henv(params)
+//@   assumes own-cmd: len(params.Command) >= 2 ==> disjointarr(params.Command, $srv.keysWithExpiry.keys[dbof(params.Context)])
+//@   ensures {C01} arity: len(params.Command) != 3 ==> result1 != nil
+//@   ensures {C01} baddelta: len(params.Command) == 3 && !atoiok(garg(params, 2)) ==> result1 != nil
+//@   ensures {C01} notnumber: len(params.Command) == 3 && atoiok(garg(params, 2)) && !gnumok(gval0(params)) ==> result1 != nil && gstore(params)[gkey(params)] == old(gstore(params)[gkey(params)])
+//@   ensures {C01} counted: result1 == nil ==> gnumok(gval0(params)) && has(gstore(params), gkey(params)) && isstr(gstore(params)[gkey(params)].Value) && asstr(gstore(params)[gkey(params)].Value) == itoa(gnum(gval0(params)) + atoi(garg(params, 2))) && bstr(result0) == ":" ++ (itoa(gnum(gval0(params)) + atoi(garg(params, 2))) ++ "\r\n")
+//@   ensures {C01,C20} otherkeys: forall k string :: k != gkey(params) && has(gstore(params), k) ==> old(has(gstore(params), k)) && gstore(params)[k].Value == old(gstore(params)[k].Value)
+
+//@ func handleDecrBy props C01,C12
+//@   requires henv(params)
+//@   assumes own-cmd: len(params.Command) >= 2 ==> disjointarr(params.Command, $srv.keysWithExpiry.keys[dbof(params.Context)])
+//@   ensures {C01} arity: len(params.Command) != 3 ==> result1 != nil
+//@   ensures {C01} baddelta: len(params.Command) == 3 && !atoiok(garg(params, 2)) ==> result1 != nil
+//@   ensures {C01} notnumber: len(params.Command) == 3 && atoiok(garg(params, 2)) && !gnumok(gval0(params)) ==> result1 != nil && gstore(params)[gkey(params)] == old(gstore(params)[gkey(params)])
+//@   ensures {C01} counted: result1 == nil ==> gnumok(gval0(params)) && has(gstore(params), gkey(params)) && isstr(gstore(params)[gkey(params)].Value) && asstr(gstore(params)[gkey(params)].Value) == itoa(gnum(gval0(params)) - atoi(garg(params, 2))) && bstr(result0) == ":" ++ (itoa(gnum(gval0(params)) - atoi(garg(params, 2))) ++ "\r\n")
+//@   ensures {C01,C20} otherkeys: forall k string :: k != gkey(params) && has(gstore(params), k) ==> old(has(gstore(params), k)) && gstore(params)[k].Value == old(gstore(params)[k].Value)
